@@ -44,7 +44,7 @@ DEPS = {"Tempering": ["IsingHam"], "Rvb": ["IsingHam"], "ClusterIsing": ["IsingH
 RELEVANT = {
     "C01": ["IsingHam", "Cluster", "ClusterIsing", "RefreshIsing", "EnergyIsing", "Diag", "HeatBathIsing"],
     "C02": ["IsingHam", "HeatBath", "HeatBathIsing"],
-    "C03": ["IsingHam", "Rvb"],
+    "C03": ["IsingHam", "Rvb", "BondContainer"],
     "C04": ["Cluster", "RefreshGeneric", "EnergyGeneric", "Diag", "HeatBath"],
     "C05": ["IsingHam", "Tempering"],
     "C08": ["Diag", "HeatBath"],
@@ -53,7 +53,12 @@ RELEVANT = {
     "C12": ["Cutoff"],
     "C15": ["IsingHam", "Convert", "EnergyIsing", "EnergyGeneric"],
     "C16": ["Size"],
-    "C17": ["EnergyIsing", "EnergyGeneric"],
+    "C17": ["EnergyIsing", "EnergyGeneric", "Stepper"],
+    # C19 and C20 call pure_fns.run since session 4; C13 and C07 do not call it yet (two lines each, see design_notes/Translator.md)
+    "C19": ["Classical"],
+    "C13": ["Stepper"],
+    "C07": ["BondContainer"],
+    "C20": ["Autocorr", "Stepper"],
 }
 
 # agreement theorems per group: namespace Qmc.PureFnsAgree
@@ -70,7 +75,10 @@ GROUP_THEOREMS = {
             "h_closure_single_rvb_sweep_agree", "ising_ratio_timestep_agree", "ising_ratio_single_rvb_sweep_agree", "ising_ratio_agree_rvb_edge",
             "ising_ratio_agree_rvb_transverse", "ising_ratio_agree_rvb_field", "rvb_edge_weight_agree_rvb", "rvb_edge_weight_timestep_nofield_agree",
             "rvb_edge_weight_single_rvb_sweep_field_agree", "rvb_edge_weight_single_rvb_sweep_nofield_agree", "steps_to_run_timestep_agree",
-            "steps_to_run_single_rvb_sweep_agree"],
+            "steps_to_run_single_rvb_sweep_agree",
+            "rvb_calculate_mult_agree", "rvb_should_mutate_draws_agree", "rvb_should_mutate_agree", "rvb_accept_prob_agree", "rvb_mult_early_exit_1_agree",
+            "rvb_mult_early_exit_2_agree", "rvb_mult_early_exit_agree_sweep", "rvb_pop_index_agree_zero", "rvb_pop_index_agree_gate", "rvb_pop_index_agree_pick",
+            "rvb_push_weight_default_agree", "rvb_push_new_weight_agree", "rvb_push_adjacent_agree", "rvb_push_adjacent_agree_noflip"],
     "Cluster": ["is_valid_cluster_edge_agree", "cluster_flip_prob_cluster_update_sym_agree", "cluster_flip_prob_agree_genericTimestep"],
     "ClusterIsing": ["cluster_weight_timestep_agree", "cluster_weight_single_cluster_step_agree", "cluster_weight_agree_samplerCore", "cluster_flip_prob_agree",
                      "cluster_flip_prob_agree_isingTimestep"],
@@ -85,6 +93,22 @@ GROUP_THEOREMS = {
     "HeatBathIsing": ["num_bonds_set_enable_heatbath_agree", "bonds_fn_set_enable_heatbath_agree", "h_closure_set_enable_heatbath_agree"],
     "Convert": ["into_qmc_edge_matrix_agree", "into_qmc_transverse_matrix_agree", "into_qmc_field_matrix_agree"],
     "Size": ["mat_var_size_rule_agree"],
+    "Classical": ["classical_should_flip_agree", "classical_should_flip_draws_agree", "classical_should_flip_agree_accProb", "classical_flip_summand_delta_e_agree",
+                              "classical_flip_summand_do_spin_flip_agree", "classical_deltaE_agree", "classical_spin_delta_total_agree",
+                              "classical_edge_delta_agree", "classical_worm_bias_term_agree", "classical_energy_coupling_term_agree", "classical_rowEnergy_agree",
+                              "classical_energy_bias_term_agree", "classical_getEnergy_agree", "classical_doTimeStep_agree", "classical_only_basic_default_agree",
+                              "classical_cumTable_agree", "classical_importance_guard_agree"],
+    "Stepper": ["stepper_sampling_freq_agree", "stepper_measureBody_agree", "stepper_average_n_agree", "stepper_average_n_agree_avgN", "chunk_init_agree",
+                            "chunk_continue_agree", "chunk_iter_agree", "chunk_final_energy_agree", "chunk_init_remaining_parallel_agree",
+                            "chunk_init_to_swap_parallel_agree", "chunk_init_to_sample_parallel_agree", "chunk_continue_parallel_agree",
+                            "chunk_t_parallel_agree", "chunk_energy_acc_parallel_agree", "chunk_to_sample_dec_parallel_agree",
+                            "chunk_to_swap_dec_parallel_agree", "chunk_remaining_dec_parallel_agree", "chunk_swap_due_parallel_agree",
+                            "chunk_to_swap_reset_parallel_agree", "chunk_sample_due_parallel_agree", "chunk_to_sample_reset_parallel_agree",
+                            "chunk_final_energy_parallel_agree"],
+    "BondContainer": ["bc_correct_total_agree", "bc_grow_agree", "bc_insert_agree", "bc_remove_index_agree", "bc_pick_loop_agree"],
+    "Autocorr": ["autocorr_mean_agree", "autocorr_center_agree", "autocorr_norm_agree", "dot_div", "rot_map", "autocorr_norm_agree_colAutocorr",
+                             "autocorr_final_agree", "autocorr_final_agree_autocorr", "autocorr_spin_value_agree", "autocorr_spin_value_product_agree",
+                             "autocorr_mappers_agree"],
 }
 # … namespace Qmc.PureFnsAgreeCluster (the theorems about QmcModel/Cluster.lean keep their old namespace)
 GROUP_THEOREMS_C = {
